@@ -38,6 +38,7 @@ class UnitOfWork(object):
             'operations': self.operations.copy(),
             'current_transaction': self.current_transaction,
             'version_session': self.version_session,
+            'pending_statements': list(self.pending_statements),
         }
 
     def forget_transaction(self):
@@ -66,7 +67,7 @@ class UnitOfWork(object):
             self.version_session.expunge_all()
         self.version_session = state['version_session']
         self.operations = state['operations']
-        self.pending_statements = []
+        self.pending_statements = state['pending_statements']
         self.version_objs = {}
         self.lookup_version_objs = True
 
